@@ -523,12 +523,13 @@ Definition status_ok (st : str) : res unit :=
       end
   end.
 
-(* r.content_length or 0  (parse_int of the first Content-Length header) *)
+(* r.content_length or 0  (parse_int_safe of the first Content-Length header: text that int()
+   refuses is "no length" — the C12 repair already in /repo) *)
 Definition resp_clen (hl : list (str * str)) : res Z :=
   match first_cl hl with
   | None => Ok 0%Z
   | Some [] => Ok 0%Z
-  | Some v => match py_int v with Some n => Ok n | None => Er e_Value end
+  | Some v => match py_int v with Some n => Ok n | None => Ok 0%Z end
   end.
 
 (* Response.from_file (repaired): text = true for a text file, conv encodes the body text *)
